@@ -22,6 +22,9 @@ CLAIMED = {
  'C14': dict(
    text="Proof for all non-NaN bit patterns (signed zeros and infinities included) of binary64 (thorough: binary32): each of the six comparison operators of every quantity class, the four vector/tensor classes and Dimensions equals the lexicographic order / equality of the stored components in declared order (CBMC contract per operator over the instantiated bodies, MiniSat); equal objects have equal hashes (2-safety CBMC harness over the extracted std::hash specialisations, std::hash<floating> as an uninterpreted function of the zero-canonicalised value).",
    ref="DESIGN.md 5 C14", note="Totality/transitivity of the lexicographic order itself is a mathematical fact, not re-proved per type. Constitutive-model classes not yet included. long double not run bit-precisely."),
+ 'C16': dict(
+   text="Proof for all bit patterns: every converting constructor and converting assignment (member templates instantiated through the real overload resolution) of every quantity class and of the four vector/tensor classes stores, in each slot, exactly the IEEE cast of the same slot of the source and writes nothing else (CBMC contract with frame per member, float<-double and double<-float); (float)(double)x == x for all float x. A converting member that has no body because it does not compile is decided by the real compiler and reported as a violation.",
+   ref="DESIGN.md 5 C16", note="Pairs with long double are not run bit-precisely (CBMC long double is binary128). Direction/PlanarDirection converting constructors re-normalise and are left to C10."),
 }
 REASONS = {'C19': "static-initialisation order is a property of the compilers' start-up schedule, not of any function's pre/postcondition; CBMC has no model of C++ dynamic initialisation and contracts cannot express it (DESIGN.md 6)"}
 checks = []
